@@ -80,6 +80,8 @@ func main() {
 		cmdZexDump(os.Args[2:])
 	case "cpmdump":
 		cmdCpmDump(os.Args[2:])
+	case "gcheck":
+		cmdGCheck(os.Args[2:])
 	case "play":
 		cmdPlay(os.Args[2:])
 	case "sweep16":
